@@ -1,5 +1,5 @@
 #!/bin/sh
-# Offline setup after a fresh restore: translator, full .vo build, extracted runner, harness.
+# Offline setup after a fresh restore: translator, full .vo build, extracted runner, harness, the endpoint binary.
 set -e
 cd "$(dirname "$0")"
 export CARGO_NET_OFFLINE=true
@@ -11,5 +11,6 @@ sys.path.insert(0, os.path.join(os.getcwd(), "tools"))
 import vlib
 vlib.build_model_runner()
 vlib.build_harness()
+vlib.build_endpoint_bin()
 print("setup ok")
 PY
